@@ -77,6 +77,7 @@ def plan(tier, seed):
                   {'LC_ALL': 'POSIX', 'PYTHONUTF8': '0', 'PYTHONCOERCECLOCALE': '0', 'TZ': 'UTC'}):
         shards.append({'kind': 'sha', 'mode': 'fresh', 'n': ncorp, '_env': {'PYTHONHASHSEED': '3', **extra}})
     shards.append({'kind': 'strict-import'})
+    shards.append({'kind': 'shared-parser'})
     trials = 10 if tier == 'quick' else 200
     for t in range(trials):
         shards.append({'kind': 'threads', 'trial': t, '_env': {'PYTHONHASHSEED': str(t % 5)}})
@@ -416,6 +417,68 @@ def threads_index(log, t, _cache={}):
     return _cache[key].get(t, -1)
 
 
+def run_shared_parser(shard, ctx):
+    """ONE Parser object used by two threads: while the first is still translating, the second asks the same Parser for its text (or
+    has it written).  Both answers are the text of the workbook that is configured - the same bytes a Parser of its own returns.
+    The second call arrives after a measured fraction of the time one translation takes, so the two overlap by construction; the
+    evidence counts the trials in which they really did (the first call returned after the second had started)."""
+    import hashlib
+    r, rng = ctx.r, ctx.rng
+    rows = 260 if ctx.tier == 'quick' else 600
+    cells = {}
+    for i in range(1, rows + 1):
+        cells[f'A{i}'] = i
+        cells[f'B{i}'] = f'=IF(A{i}>3,SUM(A1:A{min(i, 40)})*2,ROUND(A{i}/7,2))&"-"&LEFT("abcdef",MOD_{i % 3})'.replace(f'MOD_{i % 3}', str(i % 3 + 1))
+    big = wbspec.write(wbspec.spec(wbspec.sheet('Big', cells)), os.path.join(ctx.workdir, 'shared_big.xlsx'))
+    small = wbspec.write(wbspec.spec(wbspec.sheet('Small', {'A1': 1, 'B1': '=A1+1'})), os.path.join(ctx.workdir, 'shared_small.xlsx'))
+    t0 = time.perf_counter()
+    base = pipeline.translate(big)
+    dur = time.perf_counter() - t0
+    base_small = pipeline.translate(small)
+    if not (base.ok and base_small.ok):
+        r.violation('translate', {'workbook': 'shared-parser corpus'}, base.brief(), 'a text')
+        return
+    want = hashlib.sha256(base.value.encode()).hexdigest()
+    for trial, frac in enumerate([0.1, 0.25, 0.5, 0.75, 0.05, 0.9] if ctx.tier == 'quick' else [0.02 * k for k in range(1, 48)]):
+        for second in ('get', 'write'):
+            p = pipeline.make_parser(small)
+            first_small = pipeline.guarded(lambda: p.get_translation(), 'translate')       # the parser has a history: another workbook, cached
+            p.set_excel_file_path(big)
+            res, times = {}, {}
+
+            def call(tag, how):
+                times[tag + '_start'] = time.perf_counter()
+                if how == 'get':
+                    res[tag] = pipeline.guarded(lambda: p.get_translation(), 'translate')
+                else:
+                    path = os.path.join(ctx.workdir, f'shared_{trial}_{tag}.py')
+                    w = pipeline.guarded(lambda: p.write_translation(path), 'translate')
+                    res[tag] = pipeline.Outcome(pipeline.VALUE, open(path, encoding='utf-8', newline='').read()) if w.ok and os.path.exists(path) else w
+                times[tag + '_end'] = time.perf_counter()
+            ta = threading.Thread(target=call, args=('a', 'get'))
+            tb = threading.Thread(target=call, args=('b', second))
+            ta.start()
+            time.sleep(dur * frac)
+            tb.start()
+            ta.join(300)
+            tb.join(300)
+            r.ev(2)
+            r.count('shared_parser_trials')
+            if times.get('a_end', 0) > times.get('b_start', 1e99):
+                r.count('shared_parser_trials_overlapping')
+            r.nt(('shared-parser', trial, second))
+            for tag in ('a', 'b'):
+                o = res.get(tag)
+                got = hashlib.sha256(o.value.encode()).hexdigest() if (o is not None and o.ok and isinstance(o.value, str)) else None
+                if got != want:
+                    what = 'the text of the workbook configured BEFORE' if (o is not None and o.ok and o.value == base_small.value) else (o.brief() if o is not None else 'no answer')
+                    report(r, ID, None, {'trial': trial, 'what': f'one Parser, two threads: call {tag} ({"get_translation" if tag == "a" or second == "get" else "write_translation"}), the second call started after {frac:.2f} of a translation'},
+                           what, 'the text of the configured workbook (sha %s)' % want[:12], monitor='shared-parser')
+    if not r.counters.get('shared_parser_trials_overlapping'):
+        r.inconcl('no shared-parser trial overlapped (the first call had returned before the second started)')
+    r.sample({'shared_parser': {'rows': rows, 'seconds_per_translation': round(dur, 3)}})
+
+
 def run_strict_import(shard, ctx):
     """an interpreter that shows (or refuses) what the compiler warns about: importing the library and translating must not produce a
     warning out of the library's OWN source files - under -W error the same warning is an exception and no text is produced at all, and
@@ -455,7 +518,7 @@ def run_shard(shard, ctx):
         if 'trial' in c:
             return run_threads({'trial': c['trial']}, ctx)
         return run_sha({'mode': 'fresh', 'n': 8}, ctx)
-    {'histories': run_histories, 'sha': run_sha, 'threads': run_threads, 'strict-import': run_strict_import}[shard['kind']](shard, ctx)
+    {'histories': run_histories, 'sha': run_sha, 'threads': run_threads, 'strict-import': run_strict_import, 'shared-parser': run_shared_parser}[shard['kind']](shard, ctx)
 
 
 def finish(r, tier, seed):
